@@ -313,7 +313,7 @@ def run_one(ctx, case, audit):
                            "out": "P/" + out_rel,
                            "audit_escapes": [{"event": e["event"], "path_as_given": e["path"].replace(P, "P"), "realpath": e["real"].replace(P, "P")} for e in esc_audit[:6]],
                            "snapshot_new_outside_out": esc_snap[:8], "export_exception": raised,
-                           "dex_hex": data.hex() if len(data) < 3000 else None})
+                           "dex_hex": data.hex() if len(data) < 1900 else None})
             ctx.count("escapes")
         names = [c["name"] for c in case["classes"]]
         ctx.sig(case["kind"], tuple(shape(n) for n in names), tuple(shape("L" + m + ";") for c in case["classes"] for m in c["methods"]),
